@@ -168,20 +168,40 @@ def container_of(items, container):
 # ------------------------------------------------------------------------------------------ real run
 class Recorder:
     def __init__(self):
-        self.mvn = []       # (mean, cov, size, result)
+        self.mvn = []       # (mean, cov, size, result) of every recorded draw call
+        self.how = []       # which numpy entry point produced it
+        self.other = []     # draw calls that could not be normalised
         self.gcd = []       # (index list, values, (mu, sigma, columns))
 
 
 def real_run(model, conditions, n, seed):
-    """sample(n, conditions) on the real code with recorders; the global RNG state is restored."""
+    """sample(n, conditions) on the real code with recorders; the global RNG state is restored.
+    Recorded as "the draws": calls of np.random.multivariate_normal and of np.random.normal with scalar
+    loc / scale (normalised to mean vector, 1x1 covariance scale**2, number of rows, (rows, 1) table), so
+    that a different-but-equivalent way of drawing a single column is not an alarm."""
     rec = Recorder()
     orig_mvn = np.random.multivariate_normal
+    orig_normal = np.random.normal
     cls_gcd = type(model)._get_conditional_distribution
+    recreate = []
 
     def mvn(mean, cov, size=None, *a, **kw):
         r = orig_mvn(mean, cov, size, *a, **kw)
         rec.mvn.append((np.array(mean, dtype=float, copy=True), np.array(cov, dtype=float, copy=True), size,
                         np.array(r, copy=True)))
+        rec.how.append('multivariate_normal')
+        recreate.append(lambda: orig_mvn(mean, cov, size, *a, **kw))
+        return r
+
+    def nrm(loc=0.0, scale=1.0, size=None):
+        r = orig_normal(loc, scale, size)
+        if np.ndim(loc) == 0 and np.ndim(scale) == 0 and np.ndim(r) >= 1:
+            rec.mvn.append((np.array([float(loc)]), np.array([[float(scale) ** 2]]), int(np.size(r)),
+                            np.array(r, dtype=float).reshape(-1, 1)))
+            rec.how.append('normal')
+            recreate.append(lambda: np.asarray(orig_normal(loc, scale, size), dtype=float).reshape(-1, 1))
+        else:
+            rec.other.append('np.random.normal with non-scalar parameters')
         return r
 
     def gcd(nc):
@@ -193,6 +213,7 @@ def real_run(model, conditions, n, seed):
 
     state = np.random.get_state()
     np.random.multivariate_normal = mvn
+    np.random.normal = nrm
     model._get_conditional_distribution = gcd
     try:
         np.random.seed(seed)
@@ -205,10 +226,10 @@ def real_run(model, conditions, n, seed):
         rec.replayed = None
         if rec.mvn:
             np.random.seed(seed)
-            again = orig_mvn(rec.mvn[0][0], rec.mvn[0][1], rec.mvn[0][2])
-            rec.replayed = bool(np.array_equal(again, rec.mvn[0][3]))
+            rec.replayed = bool(np.array_equal(recreate[0](), rec.mvn[0][3]))
     finally:
         np.random.multivariate_normal = orig_mvn
+        np.random.normal = orig_normal
         try:
             del model._get_conditional_distribution
         except AttributeError:
@@ -324,8 +345,11 @@ def compare(spec, model, items, n, res, rec, reply):
     mo = reply[1]
     out = res[1]
     # A. normal_conditions as a label -> score map
-    if len(rec.gcd) != 1 or len(rec.mvn) != 1:
-        return ('normal-conditions', f'{len(rec.gcd)} _get_conditional_distribution calls, {len(rec.mvn)} mvn calls')
+    if len(rec.gcd) != 1:
+        return ('normal-conditions', f'{len(rec.gcd)} _get_conditional_distribution calls')
+    if len(rec.mvn) != 1 or rec.other:
+        return ('conditional-distribution', f'{len(rec.mvn)} recorded draw calls (np.random.multivariate_normal / '
+                f'np.random.normal) {rec.how} {rec.other}')
     idx, vals, (mu, sigma, c1) = rec.gcd[0]
     real_map = dict(zip(idx, vals))
     model_map = dict(zip(mo['nc_labels'], mo['nc_scores']))
@@ -453,6 +477,8 @@ def run(ctx, lean):
         ctx.count(f'd:{spec["d"]}')
         ctx.count(f'labels:{spec["kind"]}')
         ctx.count('real:' + (res[0] if res[0] == 'ok' else 'err ' + res[1]))
+        for h in rec.how:
+            ctx.count('draws-by:' + h)
         if tags['wellformed']:
             ctx.count(f'cond-size:{len(items)}')
     # which variant does the real code refine?
@@ -569,38 +595,108 @@ def oracle_case(ctx, spec, items, container, n, seed, in_order):
                     ctx.fail_input(ep, inp, {'column': str(k), 'values': out[k].to_numpy()[:5].tolist()},
                                    f'conditioned column {k!r} equals the given value {v!r} in every row', CLS_FIXED)
                     break
-    # the law handed to the sampler vs the Schur complement from correctly labelled scores
+    # the law handed to the sampler (when a draw call was recorded) / returned by
+    # _get_conditional_distribution vs the Schur complement from correctly labelled scores
     c1, c2, z, mu, sig, cond22 = schur(model, items)
     if cond22 > 1e8:
         ctx.count('search:skipped-ill-conditioned')
         return checks
-    mean, cov, size, draws = rec.mvn[0]
     tol = 1e-9 * max(1.0, cond22 / 1e2)
     zmax = max(1.0, float(np.max(np.abs(z))))
-    checks += 3
     cols1 = rec.gcd[0][2][2] if rec.gcd else None
-    if cols1 is not None and list(cols1) != c1:
-        # the draws' label order is free as long as lookup is by label; compare as maps
-        pass
     lab = list(cols1) if cols1 is not None and sorted(cols1) == c1 else c1
-    perm = [lab.index(c) for c in c1] if len(lab) == len(c1) else list(range(len(c1)))
-    ok_mean = mean.shape == mu.shape and close_arr(mean[perm], mu, tol * zmax)
-    ok_cov = cov.shape == sig.shape and close_arr(cov[np.ix_(perm, perm)], sig, tol)
-    if not ok_mean:
-        ctx.fail_input(ep, inp, {'mean handed to multivariate_normal': mean.tolist(), 'columns': [str(c) for c in lab]},
-                       f'mean S12 S22^-1 z = {mu.tolist()} for columns {[str(c) for c in c1]} (scores z labelled by '
-                       f'their own columns)', CLS_MOMENTS if in_order else CLS_ORDER)
-    if not ok_cov:
-        ctx.fail_input(ep, inp, {'cov handed to multivariate_normal': cov.tolist()},
-                       f'covariance S11 - S12 S22^-1 S21 = {sig.tolist()}', CLS_MOMENTS)
-    if cov.ndim == 2 and cov.shape[0] == cov.shape[1]:
-        sym = np.max(np.abs(cov - cov.T)) if cov.size else 0.0
-        ev = np.linalg.eigvalsh((cov + cov.T) / 2) if cov.size else np.array([0.0])
-        slack = 1e-10 * max(1.0, cond22 / 1e2)
-        if not (sym <= slack and ev.min() >= -10 * slack):
-            ctx.fail_input(ep, inp, {'asymmetry': float(sym), 'min eigenvalue': float(ev.min())},
-                           'conditional covariance symmetric positive semi-definite', CLS_PSD)
+    perm = [lab.index(c) for c in c1]
+    seen = []
+    if rec.mvn:
+        seen.append(('handed to np.random.' + rec.how[0], rec.mvn[0][0], rec.mvn[0][1]))
+    if rec.gcd:
+        seen.append(('returned by _get_conditional_distribution', rec.gcd[0][2][0], rec.gcd[0][2][1]))
+    for what, mean, cov in seen:
+        checks += 3
+        ok_mean = mean.shape == mu.shape and close_arr(mean[perm], mu, tol * zmax)
+        ok_cov = cov.shape == sig.shape and close_arr(cov[np.ix_(perm, perm)], sig, tol)
+        if not ok_mean:
+            ctx.fail_input(ep, inp, {'mean ' + what: mean.tolist(), 'columns': [str(c) for c in lab]},
+                           f'mean S12 S22^-1 z = {mu.tolist()} for columns {[str(c) for c in c1]} (scores z labelled '
+                           f'by their own columns)', CLS_MOMENTS if in_order else CLS_ORDER)
+        if not ok_cov:
+            ctx.fail_input(ep, inp, {'cov ' + what: cov.tolist()},
+                           f'covariance S11 - S12 S22^-1 S21 = {sig.tolist()}', CLS_MOMENTS)
+        if cov.ndim == 2 and cov.shape[0] == cov.shape[1]:
+            sym = np.max(np.abs(cov - cov.T)) if cov.size else 0.0
+            ev = np.linalg.eigvalsh((cov + cov.T) / 2) if cov.size else np.array([0.0])
+            slack = 1e-10 * max(1.0, cond22 / 1e2)
+            if not (sym <= slack and ev.min() >= -10 * slack):
+                ctx.fail_input(ep, inp, {'asymmetry': float(sym), 'min eigenvalue': float(ev.min())},
+                               'conditional covariance symmetric positive semi-definite', CLS_PSD)
+        if not (ok_mean and ok_cov):
+            break
     return checks
+
+
+def output_scores(model, out, c1):
+    """normal scores z = Phi^-1(clip(F_c(x))) of the columns c1 of an output table, via the model's own
+    `_transform_to_normal` (columns matched by name)."""
+    cols = list(model.columns)
+    with np.errstate(all='ignore'):
+        scores = np.asarray(model._transform_to_normal(out[cols]), dtype=float)
+    return scores[:, [cols.index(c) for c in c1]]
+
+
+def law_case(ctx, spec, items, container, n, seed, in_order):
+    """OUTPUT-based and deterministic, independent of HOW the code draws: seed the global generator, run
+    the real sample(n, cond), map the unconditioned columns back to normal scores Z, and regress Z on the
+    SAME seed's standard-normal stream G = RandomState(seed).standard_normal((n, m)).  Every way of
+    drawing N(mean, cov) that is affine in that stream (multivariate_normal by svd / eigh / cholesky,
+    np.random.normal, mean + G @ L) gives Z = 1 a' + G B exactly (up to the cdf/ppf round trip of the
+    marginals); then the score-space law of the output IS N(a, B'B), and the property requires
+    a = S12 S22^-1 z and B'B = S11 - S12 S22^-1 S21.  If the regression does not fit (another generator,
+    clipped rows) nothing is concluded here and 'unidentified' is returned (deep mode: moment bands)."""
+    model, df = build(spec)
+    c1, c2, z, mu, sig, cond22 = schur(model, items)
+    if cond22 > 1e6:
+        return 'skipped'
+    cond = container_of(items, container)
+    state = np.random.get_state()
+    try:
+        np.random.seed(seed)
+        out = model.sample(n, cond)
+    except Exception:  # noqa  (reported by oracle_case)
+        return 'skipped'
+    finally:
+        np.random.set_state(state)
+    if not (isinstance(out, pd.DataFrame) and set(spec['labels']) <= set(out.columns) and len(out) == n):
+        return 'skipped'
+    m = len(c1)
+    Z = output_scores(model, out, c1)
+    G = np.random.RandomState(seed).standard_normal((n, m))
+    keep = np.all(np.isfinite(Z), axis=1) & np.all(np.abs(Z) < 5.0, axis=1)   # clip at +-5.17 breaks affinity
+    if keep.sum() < 2 * m + 6:
+        return 'unidentified'
+    X = np.column_stack([np.ones(int(keep.sum())), G[keep]])
+    coef, *_ = np.linalg.lstsq(X, Z[keep], rcond=None)
+    resid = float(np.max(np.abs(X @ coef - Z[keep])))
+    if not resid <= 1e-6:
+        return 'unidentified'
+    a, B = coef[0], coef[1:]
+    law_cov = B.T @ B
+    tol = 1e-5 * max(1.0, cond22 / 1e2)
+    zmax = max(1.0, float(np.max(np.abs(z))))
+    inp = payload(spec, items, container, n, seed)
+    ep = 'GaussianMultivariate.sample'
+    bad = False
+    if not close_arr(a, mu, tol * zmax):
+        bad = True
+        ctx.fail_input(ep, inp, {'columns': [str(c) for c in c1], 'score-space mean of the output': a.tolist(),
+                                 'how': 'output scores = 1 a\' + G B exactly, G = RandomState(seed).standard_normal'},
+                       f'mean S12 S22^-1 z = {mu.tolist()}', CLS_STAT if in_order else CLS_ORDER)
+    if not close_arr(law_cov, sig, tol):
+        bad = True
+        ctx.fail_input(ep, inp, {'columns': [str(c) for c in c1], 'score-space covariance of the output': law_cov.tolist(),
+                                 'how': 'output scores = 1 a\' + G B exactly (max residual %.1e), covariance B\'B; '
+                                        'G = RandomState(seed).standard_normal((n, m))' % resid},
+                       f'covariance S11 - S12 S22^-1 S21 = {sig.tolist()}', CLS_STAT)
+    return 'bad' if bad else 'ok'
 
 
 def lm_band(k, x):
@@ -679,16 +775,28 @@ def search(ctx, deep):
                                     ([('c', vc_), ('a', va)], 'series', True), ([('b', float(df['b'].max()) + 1.0)], 'series', True)]:
         ctx.count('search:canonical')
         checks += oracle_case(ctx, CANON_SPEC, it, container, 3, 7, in_order)
-    n_models = 30 if deep else 4
-    specs = [make_spec(rng, d=3, kind='str')] + [make_spec(rng) for _ in range(n_models - 1)]
+    # canonical single-free-column witnesses (all-but-one conditioned; 2-column model = one key)
+    for it in [[('b', float(np.quantile(df['b'], 0.3))), ('c', vc_)], [('c', vc_), ('a', va)]]:
+        ctx.count('search:canonical-law')
+        checks += 1
+        ctx.count('search:law:' + law_case(ctx, CANON_SPEC, it, 'dict', 40, 11, True))
+    n_models = 30 if deep else 5
+    # d = 2..5 always present, so that "exactly one column left to sample" is met for every size
+    specs = [make_spec(rng, d=k, kind=rng.choice(['str', 'str', 'int'])) for k in (2, 3, 4, 5)]
+    specs += [make_spec(rng) for _ in range(n_models - len(specs))]
     ncases = 0
+    nlaw = 0
+    unidentified = []
     for spec in specs:
         model, df = build(spec)
         labels = spec['labels']
+        allbutone = [[x for x in labels if x != free] for free in labels]
         subs = subsets(rng, labels)
         if not deep and len(subs) > 6:
             subs = rng.sample(subs, 6)
+        subs = allbutone + [sub for sub in subs if sub not in allbutone]
         for sub in subs:
+            single = len(sub) == len(labels) - 1
             mode = rng.choice(['inside', 'outside', 'edge', 'int'])
             items = [(k, pick_value(rng, df[k].to_numpy(), mode)) for k in sub]
             rev = items[::-1]
@@ -698,19 +806,42 @@ def search(ctx, deep):
             for it, container, in_order in runs:
                 ncases += 1
                 ctx.count(f'search:{container}:{"training-order" if in_order else "other-order"}')
+                if single:
+                    ctx.count('search:one-free-column')
                 checks += oracle_case(ctx, spec, it, container, rng.choice([1, 3, 7]), rng.randrange(2 ** 32), in_order)
+            # output-based, deterministic: law of the output's normal scores (values near the centre so that
+            # the +-5.17 clip of the scores stays out of the way)
+            citems = [(k, pick_value(rng, df[k].to_numpy(), 'center')) for k in sub]
+            for it, container, in_order in ([(citems, 'dict', True)] +
+                                            ([(citems[::-1], 'series', False)] if len(citems) >= 2 else [])):
+                seed = rng.randrange(2 ** 32)
+                r = law_case(ctx, spec, it, container, 40 + 4 * len(labels), seed, in_order)
+                nlaw += 1
+                checks += 1
+                ctx.count('search:law:' + r + (':one-free-column' if single else ''))
+                if r == 'unidentified':
+                    unidentified.append((spec, citems))
     nstat = 0
     if deep:
-        for spec in specs[:20]:
+        # moment bands (n = 20000): every case the deterministic oracle could not decide, every
+        # all-but-one subset of the first models, and random subsets
+        todo = list(unidentified[:40])
+        for spec in specs[:12]:
             model, df = build(spec)
             labels = spec['labels']
-            for sub in rng.sample(subsets(rng, labels), min(3, len(subsets(rng, labels)))):
-                items = [(k, pick_value(rng, df[k].to_numpy(), 'center')) for k in sub]
-                c = stat_case(ctx, spec, items, 20000, rng.randrange(2 ** 32))
-                checks += c
-                nstat += 1 if c else 0
-    ctx.support = {'oracle_checks': checks, 'cases': ncases, 'statistical_cases': nstat, 'deep': deep,
-                   'failures': len(ctx.failing)}
+            cand = [[x for x in labels if x != free] for free in labels]
+            allsubs = subsets(rng, labels)
+            cand += rng.sample(allsubs, min(2, len(allsubs)))
+            for sub in cand:
+                todo.append((spec, [(k, pick_value(rng, df[k].to_numpy(), 'center')) for k in sub]))
+        for spec, items in todo:
+            c = stat_case(ctx, spec, items, 20000, rng.randrange(2 ** 32))
+            checks += c
+            nstat += 1 if c else 0
+            if c:
+                ctx.count('search:stat' + (':one-free-column' if len(items) == spec['d'] - 1 else ''))
+    ctx.support = {'oracle_checks': checks, 'cases': ncases, 'law_cases': nlaw, 'statistical_cases': nstat,
+                   'deep': deep, 'failures': len(ctx.failing)}
 
 
 def replay(ctx, payload_):
@@ -721,7 +852,10 @@ def replay(ctx, payload_):
     keys = [k for k, _ in items]
     in_order = keys == [c for c in spec['labels'] if c in keys]
     if payload_.get('class') == CLS_STAT:
-        stat_case(ctx, spec, items, inp['n'], inp['seed'])
+        if inp['n'] >= 5000:
+            stat_case(ctx, spec, items, inp['n'], inp['seed'])
+        else:
+            law_case(ctx, spec, items, inp['container'], inp['n'], inp['seed'], in_order)
     else:
         oracle_case(ctx, spec, items, inp['container'], inp['n'], inp['seed'], in_order)
     return any(f['class'] == payload_.get('class') for f in ctx.failing[before:])
